@@ -8,6 +8,8 @@
 //	          if v, ok := M[x]; ok { return v }            |  if _, ok := M[x]; ok { return M[x] }
 //	          return FALLBACK                               |  ... else { return FALLBACK }
 //	        }                                     (found branch may be fmt.Sprintf("PRE%sPOST", v))
+//	        and every other arrangement of the comma-ok lookup, `ok`-conditions, local strings and helpers that
+//	        returns the same two texts (see "lookup with a default" below: the body is run symbolically)
 //	switch  func (x *T) F() string { switch x.Value { case CONST: return "NAME" ... default: return FALLBACK } [return FALLBACK] }
 //	assign  func (x *T) FromBytes(...) { <known prologue> ; switch x.Value { case CONST: x.Name = "NAME" ... } }
 //	FALLBACK ::= "LIT" | fmt.Sprintf("PRE%dPOST", x | int(x) | x.Value | int(x.Value))
@@ -19,7 +21,9 @@ package main
 import (
 	"fmt"
 	"go/ast"
+	"go/constant"
 	"go/token"
+	"go/types"
 	"sort"
 	"strings"
 )
@@ -29,7 +33,6 @@ func init() { facts["C19Codes"] = c19CodesFact }
 type codeCfg struct {
 	id, dir, file, goType string
 	constType             string
-	constBlock            int
 	shape                 string // "map" | "switch" | "assign"
 	fn                    string
 	mapVar                string
@@ -133,7 +136,9 @@ func c19CodesFact(repo string) (string, any, error) {
 					if fd, ok := d.(*ast.FuncDecl); ok && !fd.Name.IsExported() {
 						allow[fn+":"+funcKey(pkgs[dir], fd)] = "helper of an evaluated naming function"
 					}
-					if g, ok := d.(*ast.GenDecl); ok && g.Tok == token.VAR {
+					if g, ok := d.(*ast.GenDecl); ok && (g.Tok == token.VAR || g.Tok == token.CONST) {
+						// (constants of a table's own type were read and claimed by tableConsts; what is left here is
+						// e.g. the unexported text of a default, whose effect is in the answers)
 						for _, sp := range g.Specs {
 							unexported := true
 							for _, id := range sp.(*ast.ValueSpec).Names {
@@ -169,9 +174,17 @@ func c19CodesFact(repo string) (string, any, error) {
 				}
 				continue
 			}
+			// a file that holds nothing but what the recognisers above consumed (the helper of a lookup and its
+			// default text, moved into a file of their own) is covered by them: not listed, nothing left to check
+			if p.allClaimed(fn) {
+				continue
+			}
 			// must declare constants/variables only
 			for _, d := range p.files[fn].Decls {
 				if fd, ok := d.(*ast.FuncDecl); ok {
+					if _, done := p.claimed[fd]; done {
+						continue
+					}
 					return "", nil, fmt.Errorf("%s: file %s/%s is not covered by any C19 recogniser and declares function %s", p.pos(fd), dir, fn, funcKey(p, fd))
 				}
 				if g, ok := d.(*ast.GenDecl); ok && g.Tok == token.VAR {
@@ -240,15 +253,9 @@ func c19CodeTable(p *c19pkg, cfg codeCfg) (*C19CodeTable, error) {
 	if t.Bits, err = p.bitsOf(cfg.goType); err != nil {
 		return nil, err
 	}
-	blocks := constBlocks(f)
-	if len(blocks) != 1 {
-		return nil, fmt.Errorf("%s: %d const blocks, expected 1", t.File, len(blocks))
-	}
-	if prev, ok := p.claimed[blocks[0]]; ok && prev != "" {
-		// second table over the same constants (PasswordProperties String/Description)
-		delete(p.claimed, blocks[0])
-	}
-	if t.Consts, err = p.readConstBlock(blocks[cfg.constBlock], cfg.constType, "constants of "+cfg.goType); err != nil {
+	// the constants of the table's type, wherever the file declares them (tableConsts, c19_common.go); a second
+	// table over the same constants (PasswordProperties String/Description) reads them again
+	if t.Consts, err = p.tableConsts(f, cfg.constType, "constants of "+cfg.goType); err != nil {
 		return nil, err
 	}
 	for _, c := range t.Consts {
@@ -353,90 +360,614 @@ func (p *c19pkg) fallbackExpr(e ast.Expr, subjects []string) (C19Fallback, error
 	return C19Fallback{Kind: "fmt", Pre: format[:i], Post: format[i+2:]}, nil
 }
 
-// foundExpr recognises what the found branch returns: V, M[x], or fmt.Sprintf("PRE%sPOST", V)
-func (p *c19pkg) foundExpr(e ast.Expr, alts []string) (pre, post string, err error) {
-	s := p.src(e)
-	for _, a := range alts {
-		if s == a {
-			return "", "", nil
+// ---- lookup with a default: the naming function is RUN SYMBOLICALLY, once per answer of the lookup ----
+//
+// Normalisation (DESIGN.md §7, "lookup with a default, in any arrangement and through helpers").  What a
+// `map`-shaped naming function means for the table is two things: what it returns when the name map HAS the
+// code (the stored name, possibly wrapped: WrapPre/WrapPost) and what it returns when it has NOT (the
+// fall-back: a literal or PRE<decimal code>POST).  The reader used to know one spelling,
+//
+//	if v, ok := M[x]; ok { return FOUND } ; return FALLBACK        (or with else)
+//
+// It now executes the body in a small, effect-free statement language twice — under the assumption that
+// the comma-ok lookup `M[x]` succeeds and under the assumption that it fails — and reads the two returned
+// TERMS.  Every spelling whose two runs return the same two terms regenerates the same table fields:
+//
+//	statements   v, ok := M[x] | v := M[x] | s := TERM | s = TERM | var s string | var s = TERM | b := COND |
+//	             if [init;] COND {…} [else …] | switch [init;] [COND] { case COND,…: … default: … } (no
+//	             fallthrough/break) | { … } | return TERM
+//	TERM         "lit" | package-level string constant | local string variable | M[x] | TERM + TERM |
+//	             fmt.Sprintf("PRE%sPOST", TERM) | fmt.Sprintf("PRE%dPOST", x | int(x)) | helper(args…)
+//	COND         ok | local bool | true | false | !COND | COND && COND | COND || COND | COND == COND | COND != COND
+//
+// Why this preserves meaning.  Go's semantics of each construct is followed literally: block scoping of
+// `:=` (a shadowing definition inside a branch does not touch the outer variable), the zero values
+// (`v` is "" and `ok` false after a failed lookup, `var s string` is ""), first matching `case` in source
+// order, `default` wherever it stands.  Every condition the language admits is a function of `ok` alone,
+// so the two runs together cover every path the real function can take, and the statements admitted have
+// no effect outside the function's locals.  A condition on anything else — `v == ""`, `len(v) > 0`, the
+// code itself — is NOT in the language: the function is refused here (and, for 8/16-bit codes, handed to
+// the translation by evaluation, which decides such a function on its whole domain).
+//
+// Helpers.  A call `helper(a1,…,an)` of a package-level function (generic or not, any file of the package)
+// with a single unnamed `string` result is executed the same way in a fresh scope: a parameter whose
+// argument is the IDENTIFIER of the name map stands for the map, one whose argument is the identifier of
+// the code stands for the code, any other argument must be a TERM or COND and is bound by value.  Since
+// the arguments are effect-free this is exactly Go's call semantics; that `names[code]` inside the helper
+// type-checks against the map passed is the compiler's business (a table of another family cannot be
+// passed with this code, and passing it with a CONVERTED code is not the identifier of the code: refused).
+// Nesting is followed two levels deep.  A string constant used as a TERM and every helper executed are
+// claimed, so the leftovers check accepts them; a constant or helper the runs never reach stays unclaimed
+// and is reported.
+//
+// Still refused: named results, variadic helpers, loops, conditions outside COND, a found branch that
+// does not contain the stored name, a fall-back that depends on the stored name.
+
+type lkTerm struct {
+	kind           string // "found": pre + M[x] + post | "lit": lit | "dec": pre + decimal(x) + post
+	pre, post, lit string
+}
+
+type lkVal struct {
+	isBool bool
+	b      bool
+	t      lkTerm
+}
+
+type lkFrame struct {
+	mapName, keyName string // the identifiers that denote the name map and the code in this function ("" = not passed)
+	scopes           []map[string]lkVal
+	depth            int
+}
+
+type lkRun struct {
+	p      *c19pkg
+	fn     string
+	mapVar string // the package-level name map
+	found  bool
+	claims map[ast.Node]string
+}
+
+const lkMaxDepth = 2
+
+func (fr *lkFrame) get(name string) (lkVal, bool) {
+	for i := len(fr.scopes) - 1; i >= 0; i-- {
+		if v, ok := fr.scopes[i][name]; ok {
+			return v, true
 		}
 	}
-	call, ok := e.(*ast.CallExpr)
-	if ok && p.src(call.Fun) == "fmt.Sprintf" && len(call.Args) == 2 {
-		format, err := p.stringLit(call.Args[0])
-		if err != nil {
-			return "", "", err
+	return lkVal{}, false
+}
+
+func (fr *lkFrame) push() { fr.scopes = append(fr.scopes, map[string]lkVal{}) }
+func (fr *lkFrame) pop()  { fr.scopes = fr.scopes[:len(fr.scopes)-1] }
+
+func (r *lkRun) define(fr *lkFrame, id ast.Expr, v lkVal) error {
+	x, ok := id.(*ast.Ident)
+	if !ok {
+		return r.p.errf(id, "%s: `%s` is not a local variable", r.fn, r.p.src(id))
+	}
+	if x.Name == "_" {
+		return nil
+	}
+	if x.Name == fr.mapName || x.Name == fr.keyName {
+		return r.p.errf(id, "%s: `%s` is redefined", r.fn, x.Name)
+	}
+	fr.scopes[len(fr.scopes)-1][x.Name] = v
+	return nil
+}
+
+func (r *lkRun) assign(fr *lkFrame, id ast.Expr, v lkVal) error {
+	x, ok := id.(*ast.Ident)
+	if !ok {
+		return r.p.errf(id, "%s: `%s` is not a local variable", r.fn, r.p.src(id))
+	}
+	if x.Name == "_" {
+		return nil
+	}
+	for i := len(fr.scopes) - 1; i >= 0; i-- {
+		if old, ok := fr.scopes[i][x.Name]; ok {
+			if old.isBool != v.isBool {
+				return r.p.errf(id, "%s: `%s` changes its type", r.fn, x.Name)
+			}
+			fr.scopes[i][x.Name] = v
+			return nil
 		}
-		arg := p.src(call.Args[1])
-		for _, a := range alts {
-			if arg == a {
-				i := strings.Index(format, "%")
-				if i < 0 || i+1 >= len(format) || format[i+1] != 's' || strings.Contains(format[i+2:], "%") {
-					return "", "", p.errf(e, "format %q is not of the form PRE%%sPOST", format)
+	}
+	return r.p.errf(id, "%s: assignment to `%s`, which is not a local string or bool variable of the function", r.fn, x.Name)
+}
+
+// isLookup: e is `M[x]` in the names of this frame (neither name can be shadowed: define refuses it)
+func (r *lkRun) isLookup(fr *lkFrame, e ast.Expr) bool {
+	ix, ok := unparen(e).(*ast.IndexExpr)
+	if !ok || fr.mapName == "" || fr.keyName == "" {
+		return false
+	}
+	m, ok1 := unparen(ix.X).(*ast.Ident)
+	k, ok2 := unparen(ix.Index).(*ast.Ident)
+	return ok1 && ok2 && m.Name == fr.mapName && k.Name == fr.keyName
+}
+
+func lkConcat(a, b lkTerm) (lkTerm, bool) {
+	switch {
+	case a.kind == "lit" && b.kind == "lit":
+		return lkTerm{kind: "lit", lit: a.lit + b.lit}, true
+	case a.kind == "lit":
+		return lkTerm{kind: b.kind, pre: a.lit + b.pre, post: b.post}, true
+	case b.kind == "lit":
+		return lkTerm{kind: a.kind, pre: a.pre, post: a.post + b.lit}, true
+	}
+	return lkTerm{}, false
+}
+
+func (r *lkRun) term(fr *lkFrame, e ast.Expr) (lkTerm, error) {
+	e = unparen(e)
+	if s, err := r.p.stringLit(e); err == nil {
+		return lkTerm{kind: "lit", lit: s}, nil
+	}
+	switch x := e.(type) {
+	case *ast.Ident:
+		if v, ok := fr.get(x.Name); ok {
+			if v.isBool {
+				return lkTerm{}, r.p.errf(e, "%s: `%s` is a bool, a string was expected", r.fn, x.Name)
+			}
+			return v.t, nil
+		}
+		if c, ok := r.p.info.Uses[x].(*types.Const); ok && c.Parent() == r.p.pkg.Scope() && c.Val().Kind() == constant.String {
+			spec := r.p.constSpec(c)
+			if spec == nil {
+				return lkTerm{}, r.p.errf(e, "%s: declaration of constant %s not found", r.fn, x.Name)
+			}
+			r.claims[spec] = "text used by " + r.fn
+			return lkTerm{kind: "lit", lit: constant.StringVal(c.Val())}, nil
+		}
+	case *ast.IndexExpr:
+		if r.isLookup(fr, x) {
+			if r.found {
+				return lkTerm{kind: "found"}, nil
+			}
+			return lkTerm{kind: "lit", lit: ""}, nil // zero value of the map's string
+		}
+	case *ast.BinaryExpr:
+		if x.Op == token.ADD {
+			a, err := r.term(fr, x.X)
+			if err != nil {
+				return lkTerm{}, err
+			}
+			b, err := r.term(fr, x.Y)
+			if err != nil {
+				return lkTerm{}, err
+			}
+			if c, ok := lkConcat(a, b); ok {
+				return c, nil
+			}
+			return lkTerm{}, r.p.errf(e, "%s: `%s` joins two texts that both depend on the code", r.fn, r.p.src(e))
+		}
+	case *ast.CallExpr:
+		if r.p.src(x.Fun) == "fmt.Sprintf" {
+			if len(x.Args) != 2 {
+				return lkTerm{}, r.p.errf(e, "%s: fmt.Sprintf with %d arguments", r.fn, len(x.Args))
+			}
+			ft, err := r.term(fr, x.Args[0])
+			if err != nil || ft.kind != "lit" {
+				return lkTerm{}, r.p.errf(e, "%s: format of `%s` is not a constant string", r.fn, r.p.src(e))
+			}
+			format := ft.lit
+			i := strings.Index(format, "%")
+			if i < 0 || i+1 >= len(format) || strings.Contains(format[i+2:], "%") {
+				return lkTerm{}, r.p.errf(e, "%s: format %q is not of the form PRE%%sPOST / PRE%%dPOST", r.fn, format)
+			}
+			pre, post := lkTerm{kind: "lit", lit: format[:i]}, lkTerm{kind: "lit", lit: format[i+2:]}
+			var mid lkTerm
+			switch format[i+1] {
+			case 's':
+				if mid, err = r.term(fr, x.Args[1]); err != nil {
+					return lkTerm{}, err
 				}
-				return format[:i], format[i+2:], nil
+			case 'd':
+				arg := unparen(x.Args[1])
+				if c, ok := arg.(*ast.CallExpr); ok && r.p.src(c.Fun) == "int" && len(c.Args) == 1 {
+					arg = unparen(c.Args[0])
+				}
+				if id, ok := arg.(*ast.Ident); !ok || fr.keyName == "" || id.Name != fr.keyName {
+					return lkTerm{}, r.p.errf(e, "%s: `%s` formats `%s`, expected the code itself", r.fn, r.p.src(e), r.p.src(x.Args[1]))
+				}
+				mid = lkTerm{kind: "dec"}
+			default:
+				return lkTerm{}, r.p.errf(e, "%s: format %q is not of the form PRE%%sPOST / PRE%%dPOST", r.fn, format)
+			}
+			t, ok := lkConcat(pre, mid)
+			if ok {
+				t, ok = lkConcat(t, post)
+			}
+			if !ok {
+				return lkTerm{}, r.p.errf(e, "%s: `%s` not understood", r.fn, r.p.src(e))
+			}
+			return t, nil
+		}
+		if id, ok := unparen(x.Fun).(*ast.Ident); ok {
+			if fobj, ok := r.p.info.Uses[id].(*types.Func); ok && fobj.Parent() == r.p.pkg.Scope() {
+				return r.call(fr, x, fobj)
 			}
 		}
 	}
-	return "", "", p.errf(e, "found branch returns `%s`, expected the looked-up name (%v)", s, alts)
+	return lkTerm{}, r.p.errf(e, "%s: `%s` is not a text this reader can follow (literal, string constant, local, the looked-up name, fmt.Sprintf of one of them, helper call)", r.fn, firstLine(r.p.src(e)))
+}
+
+func (r *lkRun) cond(fr *lkFrame, e ast.Expr) (bool, error) {
+	e = unparen(e)
+	switch x := e.(type) {
+	case *ast.Ident:
+		if v, ok := fr.get(x.Name); ok {
+			if !v.isBool {
+				return false, r.p.errf(e, "%s: `%s` is a string, a condition was expected", r.fn, x.Name)
+			}
+			return v.b, nil
+		}
+		if obj := r.p.info.Uses[x]; obj != nil && obj == types.Universe.Lookup("true") {
+			return true, nil
+		} else if obj != nil && obj == types.Universe.Lookup("false") {
+			return false, nil
+		}
+	case *ast.UnaryExpr:
+		if x.Op == token.NOT {
+			b, err := r.cond(fr, x.X)
+			return !b, err
+		}
+	case *ast.BinaryExpr:
+		switch x.Op {
+		case token.LAND, token.LOR, token.EQL, token.NEQ:
+			a, err := r.cond(fr, x.X)
+			b, err2 := r.cond(fr, x.Y) // operands are effect-free: evaluating both is the short-circuit value
+			if err != nil || err2 != nil {
+				break // e.g. a comparison of strings: reported below as a condition outside the language
+			}
+			switch x.Op {
+			case token.LAND:
+				return a && b, nil
+			case token.LOR:
+				return a || b, nil
+			case token.EQL:
+				return a == b, nil
+			}
+			return a != b, nil
+		}
+	}
+	return false, r.p.errf(e, "%s: condition `%s` is not a function of the lookup's ok alone", r.fn, r.p.src(e))
+}
+
+// value: a TERM or a COND, whichever the expression is
+func (r *lkRun) value(fr *lkFrame, e ast.Expr) (lkVal, error) {
+	if t, err := r.term(fr, e); err == nil {
+		return lkVal{t: t}, nil
+	} else if b, cerr := r.cond(fr, e); cerr == nil {
+		return lkVal{isBool: true, b: b}, nil
+	} else {
+		return lkVal{}, err
+	}
+}
+
+func (r *lkRun) call(fr *lkFrame, call *ast.CallExpr, fobj *types.Func) (lkTerm, error) {
+	if fr.depth+1 > lkMaxDepth {
+		return lkTerm{}, r.p.errf(call, "%s: helpers nested more than %d deep", r.fn, lkMaxDepth)
+	}
+	var hd *ast.FuncDecl
+	for _, fn := range r.p.names {
+		for _, d := range r.p.files[fn].Decls {
+			if fd, ok := d.(*ast.FuncDecl); ok && fd.Recv == nil && r.p.info.Defs[fd.Name] == fobj {
+				hd = fd
+			}
+		}
+	}
+	if hd == nil || hd.Body == nil {
+		return lkTerm{}, r.p.errf(call, "%s: body of helper %s not found", r.fn, fobj.Name())
+	}
+	res := hd.Type.Results
+	if res.NumFields() != 1 || len(res.List[0].Names) != 0 || r.p.src(res.List[0].Type) != "string" {
+		return lkTerm{}, r.p.errf(hd, "%s: helper %s does not return a single unnamed string", r.fn, fobj.Name())
+	}
+	var params []*ast.Ident
+	for _, f := range hd.Type.Params.List {
+		if _, variadic := f.Type.(*ast.Ellipsis); variadic || len(f.Names) == 0 {
+			return lkTerm{}, r.p.errf(hd, "%s: helper %s has a variadic or unnamed parameter", r.fn, fobj.Name())
+		}
+		params = append(params, f.Names...)
+	}
+	if len(params) != len(call.Args) {
+		return lkTerm{}, r.p.errf(call, "%s: helper %s called with %d arguments for %d parameters", r.fn, fobj.Name(), len(call.Args), len(params))
+	}
+	nf := &lkFrame{depth: fr.depth + 1}
+	nf.push()
+	for i, a := range call.Args {
+		pn := params[i].Name
+		if id, ok := unparen(a).(*ast.Ident); ok {
+			if _, local := fr.get(id.Name); !local && id.Name == fr.mapName && fr.mapName != "" {
+				if nf.mapName != "" || pn == "_" {
+					return lkTerm{}, r.p.errf(call, "%s: the name map is passed twice or dropped", r.fn)
+				}
+				nf.mapName = pn
+				continue
+			}
+			if _, local := fr.get(id.Name); !local && id.Name == fr.keyName && fr.keyName != "" {
+				if nf.keyName != "" || pn == "_" {
+					return lkTerm{}, r.p.errf(call, "%s: the code is passed twice or dropped", r.fn)
+				}
+				nf.keyName = pn
+				continue
+			}
+		}
+		v, err := r.value(fr, a)
+		if err != nil {
+			return lkTerm{}, err
+		}
+		if pn == nf.mapName || pn == nf.keyName {
+			return lkTerm{}, r.p.errf(hd, "%s: helper %s: duplicate parameter name", r.fn, fobj.Name())
+		}
+		if pn != "_" {
+			nf.scopes[0][pn] = v
+		}
+	}
+	if nf.mapName == "" {
+		// the helper does not take the map: inside it the map's identifier is the package-level variable itself,
+		// unless a parameter hides it (locals cannot: define refuses the name)
+		hidden := false
+		for _, pr := range params {
+			hidden = hidden || pr.Name == r.mapVar
+		}
+		if !hidden {
+			nf.mapName = r.mapVar
+		}
+	}
+	if nf.mapName != "" && nf.mapName == nf.keyName {
+		return lkTerm{}, r.p.errf(hd, "%s: helper %s: duplicate parameter name", r.fn, fobj.Name())
+	}
+	ret, err := r.block(nf, hd.Body.List)
+	if err != nil {
+		return lkTerm{}, err
+	}
+	if ret == nil {
+		return lkTerm{}, r.p.errf(hd, "%s: helper %s: end of the body reached without a return", r.fn, fobj.Name())
+	}
+	r.claims[hd] = "lookup helper of " + r.fn
+	return *ret, nil
+}
+
+// block runs a statement list in a scope of its own; ret != nil: the function returned
+func (r *lkRun) block(fr *lkFrame, list []ast.Stmt) (*lkTerm, error) {
+	fr.push()
+	defer fr.pop()
+	for _, s := range list {
+		ret, err := r.stmt(fr, s)
+		if err != nil || ret != nil {
+			return ret, err
+		}
+	}
+	return nil, nil
+}
+
+func (r *lkRun) stmt(fr *lkFrame, s ast.Stmt) (*lkTerm, error) {
+	switch x := s.(type) {
+	case *ast.ReturnStmt:
+		if len(x.Results) != 1 {
+			return nil, r.p.errf(s, "%s: return without a single value", r.fn)
+		}
+		t, err := r.term(fr, x.Results[0])
+		if err != nil {
+			return nil, err
+		}
+		return &t, nil
+	case *ast.BlockStmt:
+		return r.block(fr, x.List)
+	case *ast.AssignStmt:
+		if x.Tok != token.DEFINE && x.Tok != token.ASSIGN {
+			return nil, r.p.errf(s, "%s: `%s` is not a plain assignment", r.fn, r.p.src(s))
+		}
+		set := r.assign
+		if x.Tok == token.DEFINE {
+			set = r.define
+		}
+		if len(x.Lhs) == 2 && len(x.Rhs) == 1 && r.isLookup(fr, x.Rhs[0]) {
+			v := lkVal{t: lkTerm{kind: "lit", lit: ""}}
+			if r.found {
+				v = lkVal{t: lkTerm{kind: "found"}}
+			}
+			if err := set(fr, x.Lhs[0], v); err != nil {
+				return nil, err
+			}
+			return nil, set(fr, x.Lhs[1], lkVal{isBool: true, b: r.found})
+		}
+		if len(x.Lhs) != 1 || len(x.Rhs) != 1 {
+			return nil, r.p.errf(s, "%s: `%s` is neither `v, ok := MAP[code]` nor a single assignment", r.fn, r.p.src(s))
+		}
+		v, err := r.value(fr, x.Rhs[0])
+		if err != nil {
+			return nil, err
+		}
+		return nil, set(fr, x.Lhs[0], v)
+	case *ast.DeclStmt:
+		g, ok := x.Decl.(*ast.GenDecl)
+		if !ok || g.Tok != token.VAR {
+			return nil, r.p.errf(s, "%s: local declaration `%s` not understood", r.fn, firstLine(r.p.src(s)))
+		}
+		for _, sp := range g.Specs {
+			vs := sp.(*ast.ValueSpec)
+			if len(vs.Names) != 1 || len(vs.Values) > 1 {
+				return nil, r.p.errf(vs, "%s: local declaration `%s` not understood", r.fn, r.p.src(vs))
+			}
+			var v lkVal
+			if len(vs.Values) == 1 {
+				var err error
+				if v, err = r.value(fr, vs.Values[0]); err != nil {
+					return nil, err
+				}
+			} else {
+				switch r.p.src(vs.Type) {
+				case "string":
+					v = lkVal{t: lkTerm{kind: "lit", lit: ""}}
+				case "bool":
+					v = lkVal{isBool: true}
+				default:
+					return nil, r.p.errf(vs, "%s: local variable of type %s", r.fn, r.p.src(vs.Type))
+				}
+			}
+			if err := r.define(fr, vs.Names[0], v); err != nil {
+				return nil, err
+			}
+		}
+		return nil, nil
+	case *ast.IfStmt:
+		fr.push() // scope of the init statement
+		defer fr.pop()
+		if x.Init != nil {
+			if ret, err := r.stmt(fr, x.Init); err != nil || ret != nil {
+				return ret, err
+			}
+		}
+		c, err := r.cond(fr, x.Cond)
+		if err != nil {
+			return nil, err
+		}
+		if c {
+			return r.block(fr, x.Body.List)
+		}
+		if x.Else != nil {
+			return r.stmt(fr, x.Else)
+		}
+		return nil, nil
+	case *ast.SwitchStmt:
+		fr.push()
+		defer fr.pop()
+		if x.Init != nil {
+			if ret, err := r.stmt(fr, x.Init); err != nil || ret != nil {
+				return ret, err
+			}
+		}
+		tag := true
+		if x.Tag != nil {
+			var err error
+			if tag, err = r.cond(fr, x.Tag); err != nil {
+				return nil, err
+			}
+		}
+		var chosen, deflt *ast.CaseClause
+		for _, c := range x.Body.List {
+			cc := c.(*ast.CaseClause)
+			if cc.List == nil {
+				deflt = cc
+				continue
+			}
+			for _, ce := range cc.List {
+				b, err := r.cond(fr, ce)
+				if err != nil {
+					return nil, err
+				}
+				if b == tag && chosen == nil {
+					chosen = cc
+				}
+			}
+		}
+		if chosen == nil {
+			chosen = deflt
+		}
+		if chosen == nil {
+			return nil, nil
+		}
+		return r.block(fr, chosen.Body) // `fallthrough` and `break` are not statements of the language: refused
+	}
+	return nil, r.p.errf(s, "%s: statement `%s` is not in the fragment of the lookup reader", r.fn, firstLine(r.p.src(s)))
+}
+
+// allClaimed: the file declares at least one function, constant or variable, and every one of them was consumed
+// by a recogniser
+func (p *c19pkg) allClaimed(fn string) bool {
+	n := 0
+	for _, d := range p.files[fn].Decls {
+		switch x := d.(type) {
+		case *ast.FuncDecl:
+			if _, ok := p.claimed[x]; !ok {
+				return false
+			}
+			n++
+		case *ast.GenDecl:
+			if x.Tok != token.CONST && x.Tok != token.VAR {
+				continue
+			}
+			if _, ok := p.claimed[x]; !ok {
+				for _, s := range x.Specs {
+					if _, ok := p.claimed[s]; !ok {
+						return false
+					}
+				}
+			}
+			n++
+		}
+	}
+	return n > 0
+}
+
+// constSpec finds the ValueSpec that declares a package-level constant
+func (p *c19pkg) constSpec(c *types.Const) *ast.ValueSpec {
+	for _, fn := range p.names {
+		for _, g := range constBlocks(p.files[fn]) {
+			for _, s := range g.Specs {
+				for _, id := range s.(*ast.ValueSpec).Names {
+					if p.info.Defs[id] == c {
+						return s.(*ast.ValueSpec)
+					}
+				}
+			}
+		}
+	}
+	return nil
 }
 
 func c19LookupFunc(p *c19pkg, fd *ast.FuncDecl, recv string, cfg codeCfg, t *C19CodeTable) error {
-	if fd.Type.Params.NumFields() != 0 || fd.Type.Results.NumFields() != 1 || p.src(fd.Type.Results.List[0].Type) != "string" {
+	if fd.Type.Params.NumFields() != 0 || fd.Type.Results.NumFields() != 1 || len(fd.Type.Results.List[0].Names) != 0 || p.src(fd.Type.Results.List[0].Type) != "string" {
 		return p.errf(fd, "%s: expected signature () string", cfg.fn)
 	}
-	b := fd.Body.List
-	if len(b) < 1 || len(b) > 2 {
-		return p.errf(fd, "%s: expected `if v, ok := MAP[x]; ok { return v }` followed by the fallback return", cfg.fn)
+	if recv == cfg.mapVar || recv == "_" {
+		return p.errf(fd, "%s: receiver `%s` hides the name map or is blank", cfg.fn, recv)
 	}
-	ifs, ok := b[0].(*ast.IfStmt)
-	if !ok || ifs.Init == nil || len(ifs.Body.List) != 1 {
-		return p.errf(b[0], "%s: first statement is not a comma-ok map lookup", cfg.fn)
+	if v, ok := p.pkg.Scope().Lookup(cfg.mapVar).(*types.Var); !ok || v == nil {
+		return p.errf(fd, "%s: %s is not a package-level variable", cfg.fn, cfg.mapVar)
 	}
-	as, ok := ifs.Init.(*ast.AssignStmt)
-	index := cfg.mapVar + "[" + recv + "]"
-	if !ok || as.Tok != token.DEFINE || len(as.Lhs) != 2 || len(as.Rhs) != 1 || p.src(as.Rhs[0]) != index {
-		return p.errf(b[0], "%s: `%s` is not `v, ok := %s`", cfg.fn, p.src(ifs.Init), index)
+	claims := map[ast.Node]string{}
+	run := func(found bool) (lkTerm, error) {
+		r := &lkRun{p: p, fn: cfg.fn, mapVar: cfg.mapVar, found: found, claims: claims}
+		fr := &lkFrame{mapName: cfg.mapVar, keyName: recv}
+		ret, err := r.block(fr, fd.Body.List)
+		if err != nil {
+			return lkTerm{}, err
+		}
+		if ret == nil {
+			return lkTerm{}, p.errf(fd, "%s: end of the body reached without a return", cfg.fn)
+		}
+		return *ret, nil
 	}
-	v, okVar := p.src(as.Lhs[0]), p.src(as.Lhs[1])
-	if p.src(ifs.Cond) != okVar {
-		return p.errf(b[0], "%s: condition `%s` is not the ok variable", cfg.fn, p.src(ifs.Cond))
-	}
-	rs, ok := ifs.Body.List[0].(*ast.ReturnStmt)
-	if !ok || len(rs.Results) != 1 {
-		return p.errf(b[0], "%s: found branch is not a return", cfg.fn)
-	}
-	alts := []string{index}
-	if v != "_" {
-		alts = append(alts, v)
-	}
-	var err error
-	if t.WrapPre, t.WrapPost, err = p.foundExpr(rs.Results[0], alts); err != nil {
+	hit, err := run(true)
+	if err != nil {
 		return err
 	}
-	var fb ast.Expr
-	if ifs.Else != nil {
-		eb, ok := ifs.Else.(*ast.BlockStmt)
-		if !ok || len(eb.List) != 1 || len(b) != 1 {
-			return p.errf(b[0], "%s: else branch not understood", cfg.fn)
-		}
-		rs, ok := eb.List[0].(*ast.ReturnStmt)
-		if !ok || len(rs.Results) != 1 {
-			return p.errf(eb, "%s: else branch is not a return", cfg.fn)
-		}
-		fb = rs.Results[0]
-	} else {
-		if len(b) != 2 {
-			return p.errf(fd, "%s: no fallback return", cfg.fn)
-		}
-		rs, ok := b[1].(*ast.ReturnStmt)
-		if !ok || len(rs.Results) != 1 {
-			return p.errf(b[1], "%s: last statement is not a return", cfg.fn)
-		}
-		fb = rs.Results[0]
+	if hit.kind != "found" {
+		return p.errf(fd, "%s: for a code the name map has, the function does not return the looked-up name (%s[%s]) but %+v", cfg.fn, cfg.mapVar, recv, hit)
 	}
-	t.Fallback, err = p.fallbackExpr(fb, []string{recv})
-	return err
+	miss, err := run(false)
+	if err != nil {
+		return err
+	}
+	switch miss.kind {
+	case "lit":
+		t.Fallback = C19Fallback{Kind: "lit", Lit: miss.lit}
+	case "dec":
+		t.Fallback = C19Fallback{Kind: "fmt", Pre: miss.pre, Post: miss.post}
+	default:
+		return p.errf(fd, "%s: fall-back not understood: %+v", cfg.fn, miss)
+	}
+	t.WrapPre, t.WrapPost = hit.pre, hit.post
+	for n, why := range claims {
+		p.claimed[n] = why
+	}
+	return nil
 }
 
 func c19SwitchFunc(p *c19pkg, fd *ast.FuncDecl, recv string, cfg codeCfg, t *C19CodeTable) error {
